@@ -35,6 +35,7 @@ from . import gen_classes, world
 NOVALUE = '<<novalue>>'
 MAX_STEPS = 16
 CONTROL = ('pause', 'play', 'kill', 'resume', 'fail', 'cancel', 'status')
+NOMSG = '__nomsg__'  # Kill() without a message
 
 
 class ProgError(Exception):
@@ -451,6 +452,8 @@ class ProgBase(HookMixin, ContextMixin, Process):
         if kind == 'unsuccessful':
             return plumpy.UnsuccessfulResult(ret[1])
         if kind == 'kill':
+            if ret[1] == NOMSG:
+                return cmds['Kill']()  # the command with its default: no message at all
             return cmds['Kill'](MessageBuilder.kill(ret[1]))
         if kind == 'raise':
             exc = ProgError(ret[1])
